@@ -13,6 +13,8 @@ split_factor); the library's answer is interpreted with vp.model.r3.eval_lib.
 """
 from __future__ import annotations
 
+from vp import guard as _guard
+
 import contextlib
 import itertools
 import signal
@@ -586,8 +588,8 @@ def show(v: Any) -> Any:
 
 
 def judge(case: dict[str, Any]) -> list[tuple[str, str]]:
-    signal.signal(signal.SIGALRM, _alarm)
-    signal.alarm(HANG_S)
+    _guard.install(_alarm)
+    _guard.arm(HANG_S)
     try:
         fn = {"vec": judge_vec, "scalar": judge_scalar, "apply": judge_apply}[case["kind"]]
         return fn(case)
